@@ -38,7 +38,7 @@ def run(chk: common.Check):
             chk, broken + [d[:300] for d in dis[:3]], lambda: G.search(PROP, chk, rng.sub("search"), chk.tier)
         )
     chk.rule = (
-        "hand-written corpus (D13 witness, string-order ties, admission boundary, two-pool occupied cluster) for each policy, then "
+        "hand-written corpus (witness of the former finding D13, string-order ties, admission boundary, two-pool occupied cluster) for each policy, then "
         "generated worlds round-robin over EDF/FIFO/LSF: 1-2 pools x 1-3 workers (35% of the priority worlds single-worker pools), 1-3 resource types "
         "with repeated instances, 1-4 graphs (independent/chain/fork) of up to 7-9 tasks with 1-3 strategies, deadlines/releases drawn from "
         "1-4 distinct values (ties), states RELEASED/RUNNING/PREEMPTED/COMPLETED/VIRTUAL/released-in-the-future, millisecond deadlines; "
